@@ -145,13 +145,16 @@ func c19RunHammer(c *Ctx, exe, sub, mode string, rounds int, timeout time.Durati
 }
 
 func c19Facts(c *Ctx) {
-	rows, s, err := c19ScanRepo(c19Repo())
+	rows, guards, err := c19ScanRepo(c19Repo())
 	if err != nil {
 		c.Op("access-scan-failed", "ok")
 		c.Fail("c19/scan-failed", "lock-discipline scan failed: "+err.Error(), nil)
 		return
 	}
-	_ = s
+	for _, v := range c19Vars {
+		c.Op("guard "+v.Name+" "+guards[v.Name], "ok")
+		c.Count("guard:" + v.Name + ":" + guards[v.Name])
+	}
 	bad := map[string][]string{} // "<var>/<func>" -> rows
 	var order []string
 	for _, r := range rows {
@@ -219,7 +222,7 @@ func c19Kind(entry string) string {
 // c19GenFacts writes <out>/LockFacts.lean (the EXPECTED table; committed, regenerated only by hand:
 // `hx c19-genfacts -out DIR` then copy to lean/LemoModel/LockFacts.lean).
 func c19GenFacts(c *Ctx) {
-	rows, _, err := c19ScanRepo(c19Repo())
+	rows, guards, err := c19ScanRepo(c19Repo())
 	if err != nil {
 		panic(err)
 	}
@@ -288,6 +291,19 @@ def table : List Row := [
 			sep = ""
 		}
 		fmt.Fprintf(&b, "  ⟨.%s, %q, %v, %v, .%s, %q⟩%s\n", c19LeanVar[r.Var], r.Fn, r.RW == "w", r.Held, c19Kind(r.Entry), r.Entry, sep)
+	}
+	b.WriteString(`]
+
+/-- the guard of each variable: a lock held at EVERY access from a real entry point ("atomic": only
+    atomic.Value Load/Store; "none": no such lock) -/
+def guards : List (Var × String) := [
+`)
+	for i, v := range c19Vars {
+		sep := ","
+		if i == len(c19Vars)-1 {
+			sep = ""
+		}
+		fmt.Fprintf(&b, "  (.%s, %q)%s\n", c19LeanVar[v.Name], guards[v.Name], sep)
 	}
 	b.WriteString(`]
 
